@@ -24,11 +24,21 @@
 //!   txid; every maximal contiguous run of sign_holder / sign_holder_htlc / unsafe_sign_holder log
 //!   entries is sorted. Multisets and positions relative to all other entries are preserved.
 //! * per scenario (from the Rng) each destructive family -- corruption, user force-close, stale
-//!   reload, fabricated RAA -- is active with probability 1/2 and only from a random start step, so
+//!   reload -- is active with probability 1/2 (injected messages: 2/3) and only from a random start step, so
 //!   that channel lifetimes are spread; within that, actions are picked by fixed weights.
-//! * flag adv additionally delivers `raa_extra`: a fabricated revoke_and_ack "revoking" the peer's
-//!   current commitment while the receiver is not awaiting any (args.corrupt = "raa_extra", no
-//!   matching `sent`).
+//! * flag adv additionally injects messages nobody sent (`deliver` step, args = the wire json of the
+//!   message as delivered plus `"corrupt":"<kind>"`, fresh `m`, no matching `sent`); active in 2/3 of
+//!   the scenarios, and with probability 1/6 inserted in front of an ordinary delivery (raa kinds):
+//!   - `raa_extra`: a revoke_and_ack built from the peer's raw key material "revoking" the peer's
+//!     CURRENT commitment (secret of number cn+1, next point of number cn-1) while the receiver is
+//!     not awaiting a revocation; the same message while the receiver IS awaiting one is `raa_early`;
+//!   - `raa_wrong`: as raa_extra but with the peer's secret of number cn+3 (or the constant 0x11..11
+//!     when that number does not exist);
+//!   - `raa_stale`: as raa_extra but with a secret the peer already sent in an earlier revoke_and_ack;
+//!   - `raa_dup` / `cs_dup`: an exact copy of the last revoke_and_ack / commitment_signed that was
+//!     handed to that node (after corruption, if any).
+//!   Injections are five times as likely while the receiver has a monitor update in progress, has
+//!   sent stfu / is quiescent, or is held (see below).
 //! * a (stale) reload replays the blocks the restored manager has not seen before anything else
 //!   (args.replayed); a reload switches that node's persister back to synchronous.
 //! * `"open"` per scenario: `normal` (helper-driven open, trace starts after channel_ready, ~1/2),
@@ -50,6 +60,34 @@
 //!   (injected channel_ready, `deliver` step without matching `sent`); raa_subst (after an accepted
 //!   ready_dup_diff, the sender's next RAA carries the secret of the substituted point). Messages
 //!   are only corrupted while the receiver still has the channel.
+//! * VIEW also has `sl` / `sr` / `qu` (LOCAL_STFU_SENT / REMOTE_STFU_SENT / QUIESCENT). The stfu
+//!   message travels as `{"t":"stfu","m":..,"initiator":bool}` and is never corrupted. Acts (flag
+//!   adv, 1/3 of the scenarios): `quiesce` (node calls maybe_propose_quiescence; args.err = null or
+//!   the APIError; the stfu may be sent later, once no update is pending; only offered while the
+//!   node's channel object holds no earlier, still unconsumed proposal) and `exit_quiesce` (node
+//!   calls exit_quiescence while its view says `qu`; args.res = Debug of the Result).
+//! * every OBS has `mon`: the ChannelMonitorUpdates for the observed channel which that node's chain
+//!   monitor was handed by the manager during the step, in order, each as
+//!   `{"id":update_id,"kinds":[step variant names in order of first occurrence],"cp":[commitment
+//!   numbers of the counterparty commitment transactions the node's current monitor rebuilds from
+//!   the update; [] when the monitor is gone],"sec":[idx of every CommitmentSecret step]}`.
+//!   Updates of the channel open (before the trace starts) are not reported.
+//! * flag close adds `mon_broadcast`: node's ChannelMonitor::broadcast_latest_holder_commitment_txn
+//!   on the still-open channel (the monitor signs and broadcasts its current holder commitment and
+//!   queues a HolderForceClosedWithInfo monitor event). args `"hold":bool` (or `"err":"no monitor"`).
+//!   With hold = true (3/4) the node's ChannelManager is HELD from the end of that action: the harness
+//!   no longer calls its get_and_clear_pending_msg_events / get_and_clear_pending_events -- the only
+//!   places where the manager processes monitor events -- so the manager does not learn of the
+//!   broadcast, emits nothing (its `sent` stays empty; messages it generates are only reported once
+//!   released) and keeps handling whatever is delivered to it. The node's broadcaster, signer log,
+//!   view and `mon` are observed as usual. `process_events` releases the hold (the drain at the end of
+//!   that step lets the manager see the monitor event); it is forced once the hold has lasted 4 step
+//!   ends (counting the mon_broadcast step itself). While a hold is active only deliver (ordinary and
+//!   injected), mon_complete, force_close of the held node and process_events happen; in particular
+//!   no disconnect (a forced one is postponed until after the release), reconnect or reload.
+//! * stderr additionally has `held_deliveries` (deliver steps whose receiver was held) and
+//!   `release_while_locked` (`release` log entries of a node at or after a step in which that node
+//!   did mon_broadcast).
 //! * everything a scenario allocates is leaked (about 2-3 MB per scenario): run at most a few hundred
 //!   scenarios per process.
 use std::cell::RefCell;
@@ -200,8 +238,69 @@ enum Wire {
 	Warn(msgs::WarningMessage),
 	Shutdown(msgs::Shutdown),
 	ClosingSigned(msgs::ClosingSigned),
+	Stfu(msgs::Stfu),
 	/// never queued: gossip and friends
 	Other(String),
+}
+
+/// kinds of `Act::Inject`, by index (`raa_extra` is reported as `raa_early` when the receiver is
+/// awaiting a revocation)
+const INJECT_KINDS: [&'static str; 5] = ["raa_extra", "raa_wrong", "raa_stale", "raa_dup", "cs_dup"];
+/// how many of the leading INJECT_KINDS are revoke_and_acks
+const INJECT_RAA_KINDS: usize = 4;
+
+const MON_STEP_NAMES: [&'static str; 10] = [
+	"LatestHolderCommitmentTXInfo",
+	"LatestHolderCommitment",
+	"LatestCounterpartyCommitmentTXInfo",
+	"LatestCounterpartyCommitment",
+	"PaymentPreimage",
+	"CommitmentSecret",
+	"ChannelForceClosed",
+	"ShutdownScript",
+	"ReleasePaymentComplete",
+	"RenegotiatedFunding",
+];
+
+/// Variant names of the update steps in the Debug rendering of a ChannelMonitorUpdate, in order of
+/// first occurrence (a name counts when it stands alone: not preceded by an identifier character
+/// and followed by a space or `{`), and the `idx` of every CommitmentSecret step.
+fn mon_update_kinds(dbg: &str) -> (Vec<&'static str>, Vec<u64>) {
+	let b = dbg.as_bytes();
+	let mut kinds: Vec<&'static str> = Vec::new();
+	let mut secs: Vec<u64> = Vec::new();
+	let ident = |c: u8| c.is_ascii_alphanumeric() || c == b'_';
+	let mut i = 0;
+	while i < b.len() {
+		if !b[i].is_ascii_uppercase() || (i > 0 && ident(b[i - 1])) {
+			i += 1;
+			continue;
+		}
+		let mut j = i;
+		while j < b.len() && ident(b[j]) {
+			j += 1;
+		}
+		let word = &dbg[i..j];
+		let follows = j < b.len() && (b[j] == b' ' || b[j] == b'{');
+		if follows {
+			if let Some(name) = MON_STEP_NAMES.iter().find(|n| **n == word) {
+				if !kinds.contains(name) {
+					kinds.push(*name);
+				}
+				if *name == "CommitmentSecret" {
+					let rest = &dbg[j..];
+					if let Some(r) = rest.strip_prefix(" { idx: ") {
+						let digits: String = r.chars().take_while(|c| c.is_ascii_digit()).collect();
+						if let Ok(v) = digits.parse::<u64>() {
+							secs.push(v);
+						}
+					}
+				}
+			}
+		}
+		i = j.max(i + 1);
+	}
+	(kinds, secs)
 }
 
 struct QMsg {
@@ -219,6 +318,8 @@ struct Obs {
 	sent: Vec<String>,
 	bcast: Vec<String>,
 	closed: Option<String>,
+	/// ChannelMonitorUpdates of the observed channel handed to the node's chain monitor
+	mon: Vec<String>,
 }
 
 // ------------------------------------------------------------------------------------------
@@ -252,6 +353,10 @@ struct Rec {
 	/// "<kind> nh=<0|1|2+>"
 	cs_htlc: Vec<String>,
 	cs_violations: u64,
+	/// `deliver` steps whose receiving node was held
+	held_deliveries: u64,
+	/// `release` log entries of a node at or after a step in which it did mon_broadcast
+	release_while_locked: u64,
 }
 
 #[derive(Clone)]
@@ -287,8 +392,15 @@ impl Flags {
 #[derive(Clone, Copy, Debug)]
 enum Act {
 	Deliver(usize),
-	/// deliver a fabricated revoke_and_ack (reported as `deliver` with corrupt = raa_extra)
-	Extra(usize),
+	/// deliver a message nobody sent (reported as `deliver` with corrupt = the kind); the second
+	/// field indexes INJECT_KINDS
+	Inject(usize, usize),
+	/// ChannelMonitor::broadcast_latest_holder_commitment_txn on the open channel
+	MonBroadcast(usize),
+	/// release the hold on the node's ChannelManager event processing
+	ProcessEvents(usize),
+	Quiesce(usize),
+	ExitQuiesce(usize),
 	Send(usize),
 	Claim(usize),
 	Fail(usize),
@@ -312,7 +424,11 @@ enum Act {
 impl Act {
 	fn name(&self) -> &'static str {
 		match self {
-			Act::Deliver(_) | Act::Extra(_) | Act::ReadyDup(_, _) => "deliver",
+			Act::Deliver(_) | Act::Inject(_, _) | Act::ReadyDup(_, _) => "deliver",
+			Act::MonBroadcast(_) => "mon_broadcast",
+			Act::ProcessEvents(_) => "process_events",
+			Act::Quiesce(_) => "quiesce",
+			Act::ExitQuiesce(_) => "exit_quiesce",
 			Act::FundConfirm(_) => "fund_confirm",
 			Act::BatchComplete => "batch_complete",
 			Act::Send(_) => "send",
@@ -335,7 +451,11 @@ impl Act {
 	fn node(&self) -> Option<usize> {
 		match self {
 			Act::Deliver(n)
-			| Act::Extra(n)
+			| Act::Inject(n, _)
+			| Act::MonBroadcast(n)
+			| Act::ProcessEvents(n)
+			| Act::Quiesce(n)
+			| Act::ExitQuiesce(n)
 			| Act::Send(n)
 			| Act::Claim(n)
 			| Act::Fail(n)
@@ -405,6 +525,16 @@ struct World {
 	last_cs_corrupt: Option<(&'static str, usize)>,
 	/// set by `ready_dup`
 	dup_ctx: Option<DupCtx>,
+	/// while set, `drain` does not let that node's ChannelManager process its events
+	hold: [bool; 2],
+	/// step ends seen since the hold began
+	hold_steps: [u32; 2],
+	/// last revoke_and_ack / commitment_signed handed to each node by `deliver` (as delivered)
+	last_raa_in: [Option<msgs::RevokeAndACK>; 2],
+	last_cs_in: [Option<msgs::CommitmentSigned>; 2],
+	/// the node's channel object may still hold a quiescence proposal that was never consumed
+	/// (proposing again would trip an API-misuse assertion of the test utility)
+	quiesce_pending: [bool; 2],
 }
 
 struct DupCtx {
@@ -419,7 +549,7 @@ impl World {
 		let pc = self.intern.opt_point(&v.counterparty_current_point);
 		let pn = self.intern.opt_point(&v.counterparty_next_point);
 		format!(
-			"{{\"hn\":{},\"cn\":{},\"ready\":{},\"aw\":{},\"dc\":{},\"mon\":{},\"mpr\":{},\"mpc\":{},\"rf\":{},\"min\":{},\"ours\":{},\"theirs\":{},\"wfb\":{},\"pc\":{},\"pn\":{}}}",
+			"{{\"hn\":{},\"cn\":{},\"ready\":{},\"aw\":{},\"dc\":{},\"mon\":{},\"mpr\":{},\"mpc\":{},\"rf\":{},\"min\":{},\"ours\":{},\"theirs\":{},\"wfb\":{},\"pc\":{},\"pn\":{},\"sl\":{},\"sr\":{},\"qu\":{}}}",
 			v.holder_next,
 			v.counterparty_next,
 			v.channel_ready,
@@ -434,8 +564,24 @@ impl World {
 			v.awaiting_their_channel_ready_received,
 			v.awaiting_waiting_for_batch,
 			pc,
-			pn
+			pn,
+			v.local_stfu_sent,
+			v.remote_stfu_sent,
+			v.quiescent
 		)
+	}
+
+	/// One ChannelMonitorUpdate node `n`'s chain monitor was handed, for OBS `mon`.
+	fn mon_json(&self, n: usize, u: &ChannelMonitorUpdate) -> String {
+		let dbg = format!("{:?}", u);
+		let (kinds, secs) = mon_update_kinds(&dbg);
+		let cp: Vec<String> = match self.nodes[n].chain_monitor.chain_monitor.get_monitor(self.chan_id) {
+			Ok(m) => m.counterparty_commitment_txs_from_update(u).iter().map(|t| t.commitment_number().to_string()).collect(),
+			Err(()) => Vec::new(),
+		};
+		let kinds: Vec<String> = kinds.iter().map(|k| js(k)).collect();
+		let secs: Vec<String> = secs.iter().map(|s| s.to_string()).collect();
+		format!("{{\"id\":{},\"kinds\":{},\"cp\":{},\"sec\":{}}}", u.update_id, jarr(&kinds), jarr(&cp), jarr(&secs))
 	}
 
 	/// How completely the counterparty signed the monitor's current holder commitment.
@@ -490,6 +636,7 @@ impl World {
 			Wire::Warn(m) => format!("{{\"t\":\"warn\",\"m\":{},\"data\":{}}}", mid, js(&trunc(&m.data, 160))),
 			Wire::Shutdown(_) => format!("{{\"t\":\"shutdown\",\"m\":{}}}", mid),
 			Wire::ClosingSigned(_) => format!("{{\"t\":\"other\",\"m\":{},\"kind\":\"closing_signed\"}}", mid),
+			Wire::Stfu(m) => format!("{{\"t\":\"stfu\",\"m\":{},\"initiator\":{}}}", mid, m.initiator),
 			Wire::Other(k) => format!("{{\"t\":\"other\",\"m\":{},\"kind\":{}}}", mid, js(k)),
 		}
 	}
@@ -511,6 +658,7 @@ impl World {
 			Wire::Ready(m) => Some(m.channel_id),
 			Wire::Shutdown(m) => Some(m.channel_id),
 			Wire::ClosingSigned(m) => Some(m.channel_id),
+			Wire::Stfu(m) => Some(m.channel_id),
 			_ => None,
 		}
 		.map(|c| c != self.chan_id)
@@ -594,6 +742,7 @@ impl World {
 			MessageSendEvent::SendChannelReady { node_id, msg } if node_id == peer => self.emit(n, Wire::Ready(msg), false, obs),
 			MessageSendEvent::SendShutdown { node_id, msg } if node_id == peer => self.emit(n, Wire::Shutdown(msg), false, obs),
 			MessageSendEvent::SendClosingSigned { node_id, msg } if node_id == peer => self.emit(n, Wire::ClosingSigned(msg), false, obs),
+			MessageSendEvent::SendStfu { node_id, msg } if node_id == peer => self.emit(n, Wire::Stfu(msg), false, obs),
 			MessageSendEvent::HandleError { node_id, action } if node_id == peer => match action {
 				ErrorAction::SendErrorMessage { msg } => self.emit(n, Wire::Error(msg), false, obs),
 				ErrorAction::SendWarningMessage { msg, .. } => self.emit(n, Wire::Warn(msg), false, obs),
@@ -636,15 +785,24 @@ impl World {
 		for _round in 0..50 {
 			let mut activity = false;
 			for n in 0..2 {
-				let evs = self.nodes[n].node.get_and_clear_pending_msg_events();
-				for ev in evs {
-					activity = true;
-					self.on_msg_event(n, ev, obs);
+				// a held manager is not asked for anything: these two calls are the only places where
+				// it processes the chain monitor's pending monitor events
+				if !self.hold[n] {
+					let evs = self.nodes[n].node.get_and_clear_pending_msg_events();
+					for ev in evs {
+						activity = true;
+						self.on_msg_event(n, ev, obs);
+					}
+					let evs = self.nodes[n].node.get_and_clear_pending_events();
+					for ev in evs {
+						activity = true;
+						self.on_event(n, ev, obs);
+					}
 				}
-				let evs = self.nodes[n].node.get_and_clear_pending_events();
-				for ev in evs {
-					activity = true;
-					self.on_event(n, ev, obs);
+				let ups = self.nodes[n].chain_monitor.monitor_updates.lock().unwrap().remove(&self.chan_id).unwrap_or_default();
+				for u in ups.iter() {
+					let j = self.mon_json(n, u);
+					obs[n].mon.push(j);
 				}
 				// the ChainMonitor is a message handler / event provider too: drop what it has
 				let _ = self.nodes[n].chain_monitor.chain_monitor.get_and_clear_pending_msg_events();
@@ -742,6 +900,7 @@ impl World {
 	}
 
 	fn do_disconnect(&mut self) {
+		assert!(!self.hold[0] && !self.hold[1], "harness: disconnect while a manager is held");
 		self.nodes[0].node.peer_disconnected(self.ids[1]);
 		self.nodes[1].node.peer_disconnected(self.ids[0]);
 		self.connected = false;
@@ -812,6 +971,7 @@ impl World {
 
 	/// Restarts node `n` from `mgr_bytes` and the CURRENT monitors.
 	fn do_reload(&mut self, n: usize, mgr_bytes: &[u8]) -> Result<(), String> {
+		assert!(!self.hold[0] && !self.hold[1], "harness: reload while a manager is held");
 		if self.connected {
 			self.nodes[1 - n].node.peer_disconnected(self.ids[n]);
 		}
@@ -890,27 +1050,65 @@ impl World {
 			return Err("manager best block not on the node's chain".to_string());
 		}
 		self.last_replayed = replayed;
+		// the restored channel object holds no quiescence proposal (not serialized)
+		self.quiesce_pending[n] = false;
 		Ok(())
 	}
 
-	/// Pops the head of `q[n]`, possibly corrupts it, hands it to node `n`. Returns the args body.
-	/// A revoke_and_ack nobody sent: the peer `p` of `n` "revoking" its CURRENT commitment, built
-	/// from p's raw key material (neither the TestChannelSigner log nor its assertions are touched).
-	fn fabricate_raa(&self, n: usize) -> Option<msgs::RevokeAndACK> {
+	/// Whether the message of INJECT_KINDS[kind] can be built for receiver `n`, whose view is `v`.
+	fn inject_available(&self, n: usize, kind: usize, v: &RevocationView) -> bool {
+		match INJECT_KINDS[kind] {
+			"raa_extra" | "raa_wrong" => v.counterparty_next > 0,
+			"raa_stale" => v.counterparty_next > 0 && !self.raa_hist[1 - n].is_empty(),
+			"raa_dup" => self.last_raa_in[n].is_some(),
+			_ => self.last_cs_in[n].is_some(),
+		}
+	}
+
+	/// A message nobody sent, for receiver `n`, and the kind it is reported as. The revoke_and_acks
+	/// are those of the peer `p` of `n` "revoking" its CURRENT commitment, built from p's raw key
+	/// material (neither the TestChannelSigner log nor its assertions are touched).
+	fn build_inject(&self, n: usize, kind: usize, rng: &mut Rng) -> Option<(Wire, &'static str)> {
+		const INITIAL: u64 = (1 << 48) - 1;
 		let p = 1 - n;
+		let name = INJECT_KINDS[kind];
+		match name {
+			"raa_dup" => return self.last_raa_in[n].clone().map(|m| (Wire::RAA(m), name)),
+			"cs_dup" => return self.last_cs_in[n].clone().map(|m| (Wire::CS(m), name)),
+			_ => {},
+		}
 		let v = self.view(n)?;
-		if v.awaiting_remote_revoke || v.counterparty_next == 0 {
+		if v.counterparty_next == 0 {
 			return None;
 		}
 		let sg = self.nodes[p].keys_manager.derive_channel_signer(self.keys[p]);
-		let secret = sg.inner.release_commitment_secret(v.counterparty_next + 1).ok()?;
 		let point = sg.inner.get_per_commitment_point(v.counterparty_next - 1, &self.intern.secp).ok()?;
-		Some(msgs::RevokeAndACK {
+		let (secret, reported) = match name {
+			"raa_extra" => {
+				let s = sg.inner.release_commitment_secret(v.counterparty_next + 1).ok()?;
+				(s, if v.awaiting_remote_revoke { "raa_early" } else { "raa_extra" })
+			},
+			"raa_wrong" => {
+				let k = v.counterparty_next + 3;
+				// 0x11..11 is a valid secret key that matches no announced point
+				let s = if k <= INITIAL { sg.inner.release_commitment_secret(k).ok()? } else { [0x11; 32] };
+				(s, name)
+			},
+			_ => {
+				let hist = &self.raa_hist[p];
+				if hist.is_empty() {
+					return None;
+				}
+				(hist[rng.below(hist.len() as u64) as usize], name)
+			},
+		};
+		let m = msgs::RevokeAndACK {
 			channel_id: self.chan_id,
 			per_commitment_secret: secret,
 			next_per_commitment_point: point,
 			release_htlc_message_paths: Vec::new(),
-		})
+		};
+		Some((Wire::RAA(m), reported))
 	}
 
 	/// Delivers to `n` a channel_ready nobody sent: a copy of the peer's last one (`diff` = false)
@@ -948,27 +1146,41 @@ impl World {
 		self.nodes[n].node.handle_channel_ready(self.ids[p], &msg);
 	}
 
-	fn deliver_fabricated(&mut self, n: usize, m: msgs::RevokeAndACK, rec: &Rc<RefCell<Rec>>, hdr: &str) {
+	/// Hands `w` (a message nobody sent, reported as `kind`) to node `n`.
+	fn deliver_injected(&mut self, n: usize, w: Wire, kind: &'static str, rec: &Rc<RefCell<Rec>>, hdr: &str) {
 		let mid = self.next_mid;
 		self.next_mid += 1;
-		let mut j = self.wire_json(&Wire::RAA(m.clone()), mid);
+		let mut j = self.wire_json(&w, mid);
 		j.pop();
-		let body = format!("{},\"corrupt\":\"raa_extra\"", &j[1..]);
+		let body = format!("{},\"corrupt\":\"{}\"", &j[1..], kind);
 		{
 			let mut r = rec.borrow_mut();
 			r.pending = Some(format!("{},\"args\":{{{}}}", hdr, body));
-			r.corrupt.push("raa_extra".to_string());
+			r.corrupt.push(kind.to_string());
 		}
-		self.nodes[n].node.handle_revoke_and_ack(self.ids[1 - n], &m);
+		let from_id = self.ids[1 - n];
+		match w {
+			Wire::RAA(m) => self.nodes[n].node.handle_revoke_and_ack(from_id, &m),
+			Wire::CS(m) => self.nodes[n].node.handle_commitment_signed(from_id, &m),
+			_ => {},
+		}
 	}
 
+	/// Pops the head of `q[n]`, possibly corrupts it, hands it to node `n`. The args body is left
+	/// in `rec.pending`.
 	fn deliver(&mut self, n: usize, rng: &mut Rng, adv: bool, rec: &Rc<RefCell<Rec>>, hdr: &str) {
-		// only possible while `n` is not awaiting a revocation, which is rare with traffic in flight
-		let fab = if adv { self.fabricate_raa(n) } else { None };
-		if fab.is_some() && rng.below(6) == 0 {
-			// inserted BEFORE the head of the queue, which stays where it is
-			self.deliver_fabricated(n, fab.unwrap(), rec, hdr);
-			return;
+		if adv {
+			if let Some(v) = self.view(n) {
+				let avail: Vec<usize> = (0..INJECT_RAA_KINDS).filter(|k| self.inject_available(n, *k, &v)).collect();
+				if !avail.is_empty() && rng.below(6) == 0 {
+					let kind = avail[rng.below(avail.len() as u64) as usize];
+					if let Some((w, reported)) = self.build_inject(n, kind, rng) {
+						// inserted BEFORE the head of the queue, which stays where it is
+						self.deliver_injected(n, w, reported, rec, hdr);
+						return;
+					}
+				}
+			}
 		}
 		let mut qm = self.q[n].pop_front().unwrap();
 		let from = 1 - n;
@@ -1117,7 +1329,23 @@ impl World {
 			}
 		}
 		let node = self.nodes[n].node;
+		match &qm.w {
+			Wire::RAA(m) => self.last_raa_in[n] = Some(m.clone()),
+			Wire::CS(m) => self.last_cs_in[n] = Some(m.clone()),
+			_ => {},
+		}
 		match qm.w {
+			Wire::Stfu(m) => {
+				let before = self.view(n);
+				node.handle_stfu(from_id, &m);
+				// a node that had sent its own stfu and becomes quiescent as the initiator (the peer
+				// answered, or the funder -- node 0 -- wins the tie) consumes its pending proposal
+				let sl = before.map(|v| v.local_stfu_sent).unwrap_or(false);
+				let qu = self.view(n).map(|v| v.quiescent).unwrap_or(false);
+				if sl && qu && (!m.initiator || n == 0) {
+					self.quiesce_pending[n] = false;
+				}
+			},
 			Wire::Add(m) => node.handle_update_add_htlc(from_id, &m),
 			Wire::Fulfill(m) => node.handle_update_fulfill_htlc(from_id, m),
 			Wire::FailHtlc(m) => node.handle_update_fail_htlc(from_id, &m),
@@ -1161,13 +1389,14 @@ fn obs_json(w: &mut World, o: &Obs, n: usize) -> String {
 		None => "null".to_string(),
 	};
 	format!(
-		"{{\"log\":{},\"view\":{},\"holder\":{},\"sent\":{},\"bcast\":{},\"closed\":{}}}",
+		"{{\"log\":{},\"view\":{},\"holder\":{},\"sent\":{},\"bcast\":{},\"closed\":{},\"mon\":{}}}",
 		jarr(&o.log),
 		view,
 		w.holder_json(n),
 		jarr(&o.sent),
 		jarr(&o.bcast),
-		jopt(&o.closed)
+		jopt(&o.closed),
+		jarr(&o.mon)
 	)
 }
 
@@ -1385,6 +1614,11 @@ fn run_scenario(seed: u64, k: u64, max_steps: u64, flags: &Flags, rec: &Rc<RefCe
 		subst: [None, None],
 		last_cs_corrupt: None,
 		dup_ctx: None,
+		hold: [false; 2],
+		hold_steps: [0; 2],
+		last_raa_in: [None, None],
+		last_cs_in: [None, None],
+		quiesce_pending: [false; 2],
 	});
 
 	if nn == 3 {
@@ -1401,6 +1635,10 @@ fn run_scenario(seed: u64, k: u64, max_steps: u64, flags: &Flags, rec: &Rc<RefCe
 		}
 		w.drain(&mut scratch);
 		let _ = vh::signer_log::take();
+		// monitor updates of the channel open are not part of the trace either
+		for n in 0..2 {
+			w.nodes[n].chain_monitor.monitor_updates.lock().unwrap().clear();
+		}
 		w.claimable = [Vec::new(), Vec::new()];
 		w.spends.clear();
 		if open_mode == "normal" {
@@ -1463,9 +1701,12 @@ fn run_scenario(seed: u64, k: u64, max_steps: u64, flags: &Flags, rec: &Rc<RefCe
 	let adv_start = if flags.adv && adv_on { adv_at } else { u64::MAX };
 	let close_start = if flags.close && close_on { close_at } else { u64::MAX };
 	let stale_start = if flags.reload && stale_on { stale_at } else { u64::MAX };
-	let extra_on = rng.below(2) == 0;
+	let inject_on = rng.below(3) != 0;
 	let hs_dup_on = rng.below(2) == 0;
 	let late_dup_on = rng.below(3) == 0;
+	let quiesce_on = rng.below(3) == 0;
+	// nodes whose monitor was told to broadcast its holder commitment (statistics only)
+	let mut locked = [false; 2];
 
 	for step in 0..max_steps {
 		let views = [w.view(0), w.view(1)];
@@ -1476,12 +1717,61 @@ fn run_scenario(seed: u64, k: u64, max_steps: u64, flags: &Flags, rec: &Rc<RefCe
 
 		// enabled actions, in a fixed order
 		let mut en: Vec<(u64, Act)> = Vec::new();
-		if w.want_disc && w.connected {
+		let any_hold = w.hold[0] || w.hold[1];
+		// handshake phase: the channel exists on both sides but is not ChannelReady on both
+		let hs = both_open && !ready;
+		// injected messages (offered in both regimes below)
+		let mut inj: Vec<(u64, Act)> = Vec::new();
+		if flags.adv && inject_on && step >= adv_start && w.connected {
+			for n in 0..2 {
+				if let Some(v) = views[n].as_ref() {
+					if !v.channel_ready {
+						continue;
+					}
+					let hot = v.monitor_update_in_progress || v.local_stfu_sent || v.quiescent || w.hold[n];
+					for k in 0..INJECT_KINDS.len() {
+						if w.inject_available(n, k, v) {
+							inj.push((if hot { 5 } else { 1 }, Act::Inject(n, k)));
+						}
+					}
+				}
+			}
+		}
+		if any_hold {
+			// a manager is held: only deliveries, monitor completions, a user force-close of the held
+			// node and the release; a forced disconnect waits (want_disc stays set)
+			let forced: Vec<usize> = (0..2).filter(|n| w.hold[*n] && w.hold_steps[*n] >= 4).collect();
+			if !forced.is_empty() {
+				for n in forced {
+					en.push((8, Act::ProcessEvents(n)));
+				}
+			} else {
+				for n in 0..2 {
+					if w.connected && !w.q[n].is_empty() {
+						en.push((28, Act::Deliver(n)));
+					}
+				}
+				en.extend(inj.iter().copied());
+				if flags.asyn {
+					for n in 0..2 {
+						if async_mode[n] {
+							en.push((6, Act::MonComplete(n)));
+						}
+					}
+				}
+				for n in 0..2 {
+					if w.hold[n] {
+						if flags.close && open[n] {
+							en.push((2, Act::ForceClose(n)));
+						}
+						en.push((8, Act::ProcessEvents(n)));
+					}
+				}
+			}
+		} else if w.want_disc && w.connected {
 			en.push((1, Act::Disconnect));
 		} else {
 			w.want_disc = false;
-			// handshake phase: the channel exists on both sides but is not ChannelReady on both
-			let hs = both_open && !ready;
 			let blocks_ok = |w: &World, n: usize| w.funding_confirmed[n] || (!hs && !w.funding_broadcast);
 			for n in 0..2 {
 				if w.connected && !w.q[n].is_empty() {
@@ -1512,11 +1802,30 @@ fn run_scenario(seed: u64, k: u64, max_steps: u64, flags: &Flags, rec: &Rc<RefCe
 					}
 				}
 			}
-			if flags.adv && extra_on && step >= adv_start && w.connected {
+			en.extend(inj.iter().copied());
+			if flags.adv && quiesce_on && ready && w.connected {
 				for n in 0..2 {
-					if views[n].as_ref().map(|v| v.channel_ready && !v.awaiting_remote_revoke && v.counterparty_next > 0).unwrap_or(false) {
-						en.push((4, Act::Extra(n)));
+					let v = views[n].as_ref().unwrap();
+					// the proposal is a test utility with API-misuse assertions: only on a usable channel
+					// (ChannelDetails::is_channel_ready) that holds no earlier, unconsumed proposal
+					if !v.local_stfu_sent && !v.quiescent && !w.quiesce_pending[n] {
+						let usable = w
+							.nodes[n]
+							.node
+							.list_channels()
+							.iter()
+							.find(|d| d.channel_id == w.chan_id)
+							.map(|d| d.is_channel_ready)
+							.unwrap_or(false);
+						if usable {
+							en.push((2, Act::Quiesce(n)));
+						}
 					}
+				}
+			}
+			for n in 0..2 {
+				if views[n].as_ref().map(|v| v.quiescent && !v.local_stfu_sent && !v.remote_stfu_sent).unwrap_or(false) {
+					en.push((3, Act::ExitQuiesce(n)));
 				}
 			}
 			for n in 0..2 {
@@ -1574,6 +1883,9 @@ fn run_scenario(seed: u64, k: u64, max_steps: u64, flags: &Flags, rec: &Rc<RefCe
 				for n in 0..2 {
 					if open[n] && !hs && step >= close_start {
 						en.push((2, Act::ForceClose(n)));
+						// preferably with a commitment_signed about to reach the node
+						let cs_queued = w.connected && w.q[n].iter().any(|m| matches!(m.w, Wire::CS(_)));
+						en.push((if cs_queued { 10 } else { 2 }, Act::MonBroadcast(n)));
 					}
 					if blocks_ok(&w, n) {
 						en.push((if open[n] { 1 } else { 4 }, Act::Blocks(n)));
@@ -1611,6 +1923,9 @@ fn run_scenario(seed: u64, k: u64, max_steps: u64, flags: &Flags, rec: &Rc<RefCe
 			let mut r = rec.borrow_mut();
 			r.pending = Some(format!("{},\"args\":{{}}", hdr));
 			r.acts.push(act.name().to_string());
+			if act.name() == "deliver" && act.node().map(|n| w.hold[n]).unwrap_or(false) {
+				r.held_deliveries += 1;
+			}
 		}
 		let mut obs: [Obs; 2] = Default::default();
 		let mut args = String::new();
@@ -1626,14 +1941,54 @@ fn run_scenario(seed: u64, k: u64, max_steps: u64, flags: &Flags, rec: &Rc<RefCe
 				args = p[at..p.len() - 1].to_string();
 				delivered_reest = args.starts_with("\"t\":\"reest\"");
 			},
-			Act::Extra(n) => match w.fabricate_raa(n) {
-				Some(m) => {
-					w.deliver_fabricated(n, m, rec, &hdr);
+			Act::Inject(n, kind) => match w.build_inject(n, kind, &mut rng) {
+				Some((m, reported)) => {
+					w.deliver_injected(n, m, reported, rec, &hdr);
 					let p = rec.borrow().pending.clone().unwrap();
 					let at = p.find("\"args\":{").unwrap() + 8;
 					args = p[at..p.len() - 1].to_string();
 				},
-				None => args = "\"t\":\"raa\",\"corrupt\":\"raa_extra\",\"skipped\":true".to_string(),
+				None => {
+					let t = if kind < INJECT_RAA_KINDS { "raa" } else { "cs" };
+					args = format!("\"t\":\"{}\",\"corrupt\":\"{}\",\"skipped\":true", t, INJECT_KINDS[kind]);
+				},
+			},
+			Act::MonBroadcast(n) => {
+				let done = match w.nodes[n].chain_monitor.chain_monitor.get_monitor(w.chan_id) {
+					Ok(m) => {
+						m.broadcast_latest_holder_commitment_txn(&w.nodes[n].tx_broadcaster, &w.nodes[n].fee_estimator, &w.nodes[n].logger);
+						true
+					},
+					Err(()) => false,
+				};
+				if done {
+					locked[n] = true;
+					let hold = rng.below(4) != 0;
+					if hold {
+						w.hold[n] = true;
+						w.hold_steps[n] = 0;
+					}
+					args = format!("\"hold\":{}", hold);
+				} else {
+					args = "\"err\":\"no monitor\"".to_string();
+				}
+			},
+			Act::ProcessEvents(n) => {
+				args = format!("\"held_steps\":{}", w.hold_steps[n]);
+				w.hold[n] = false;
+			},
+			Act::Quiesce(n) => {
+				let peer = w.ids[1 - n];
+				let res = w.nodes[n].node.maybe_propose_quiescence(&peer, &w.chan_id);
+				if res.is_ok() {
+					w.quiesce_pending[n] = true;
+				}
+				args = format!("\"err\":{}", jopt(&res.err().map(|e| format!("{:?}", e))));
+			},
+			Act::ExitQuiesce(n) => {
+				let peer = w.ids[1 - n];
+				let res = w.nodes[n].node.exit_quiescence(&peer, &w.chan_id);
+				args = format!("\"res\":{}", js(&format!("{:?}", res)));
 			},
 			Act::ReadyDup(n, diff) => {
 				w.ready_dup(n, diff, &mut rng, rec, &hdr);
@@ -1768,6 +2123,9 @@ fn run_scenario(seed: u64, k: u64, max_steps: u64, flags: &Flags, rec: &Rc<RefCe
 				for l in obs[n].log.iter() {
 					if l.starts_with("[\"release\"") {
 						r.releases += 1;
+						if locked[n] {
+							r.release_while_locked += 1;
+						}
 						if delivered_reest {
 							r.retx_raa = true;
 						}
@@ -1822,6 +2180,11 @@ fn run_scenario(seed: u64, k: u64, max_steps: u64, flags: &Flags, rec: &Rc<RefCe
 			r.steps.push(format!("{{{},\"args\":{{{}}},\"obs\":[{},{}]}}", hdr, args, o0, o1));
 			r.pending = None;
 		}
+		for n in 0..2 {
+			if w.hold[n] {
+				w.hold_steps[n] += 1;
+			}
+		}
 		if end {
 			break;
 		}
@@ -1856,6 +2219,8 @@ struct Stats {
 	dup_violations: u64,
 	cs_htlc: BTreeMap<String, u64>,
 	cs_violations: u64,
+	held_deliveries: u64,
+	release_while_locked: u64,
 }
 
 fn run_one(seed: u64, k: u64, max_steps: u64, flags: &Flags, stats: &mut Stats) {
@@ -1914,6 +2279,8 @@ fn run_one(seed: u64, k: u64, max_steps: u64, flags: &Flags, stats: &mut Stats) 
 	}
 	stats.dup_violations += r.dup_violations;
 	stats.cs_violations += r.cs_violations;
+	stats.held_deliveries += r.held_deliveries;
+	stats.release_while_locked += r.release_while_locked;
 }
 
 fn json_u64(s: &str, key: &str) -> Option<u64> {
@@ -1958,8 +2325,8 @@ fn print_stats(st: &Stats) {
 	);
 	let n = st.scenarios.max(1);
 	eprintln!("h_revoke: release calls total={} avg/scenario={:.1}", st.releases, st.releases as f64 / n as f64);
-	eprintln!("h_revoke: scenarios with close={} reload={} stale_reload={} retransmitted_raa={} retransmitted_cs={} async_completion_with_pending={} force_close_with_htlcs={} sign_holder_htlc={}",
-		st.closed, st.reloaded, st.stale, st.retx_raa, st.retx_cs, st.async_completed, st.fc_with_htlcs, st.htlc_signed);
+	eprintln!("h_revoke: scenarios with close={} reload={} stale_reload={} retransmitted_raa={} retransmitted_cs={} async_completion_with_pending={} force_close_with_htlcs={} sign_holder_htlc={}; totals: held_deliveries={} release_while_locked={}",
+		st.closed, st.reloaded, st.stale, st.retx_raa, st.retx_cs, st.async_completed, st.fc_with_htlcs, st.htlc_signed, st.held_deliveries, st.release_while_locked);
 }
 
 fn main() {
